@@ -178,7 +178,7 @@ CHECKS = {
             "implementation: every reader (all option values, and the extension-dispatching opener) on valid documents, structure-aware "
             "mutations/truncations/splices, wrong-format documents, random bytes, transport streams with malformed PES payloads / data "
             "units / teletext packets inside a valid packet layer (the teletext model is value-compared on the hostile payloads); every "
-            "writer on cue lists with every optional part absent and hostile text; all under recover() and a 5 s watchdog. Panics that "
+            "writer on cue lists with every optional part absent and hostile text; all under recover() and a 15 s watchdog. Panics that "
             "originate inside the third-party demultiplexer are excluded, as the property states.",
             "Rocq totality proofs for the six reader and five writer models + structure-aware mutation under recover()/watchdog on the implementation",
             "not reached by the models: encoding/xml's tokenizer on arbitrary bytes, the transport-stream demultiplexer and PID detection, "
